@@ -543,6 +543,9 @@ func (r *Renderer) Files() map[string]string {
 	}
 	for _, fi := range sortedIntKeys2(files) {
 		f := r.newFile(0, "wireinject")
+		for _, bp := range s.Blank {
+			f.imports[bp] = "_"
+		}
 		for _, ii := range files[fi] {
 			in := &s.Injectors[ii]
 			if in.Doc != "" {
@@ -576,7 +579,9 @@ func (r *Renderer) Files() map[string]string {
 		b.WriteString("\n" + src)
 		out[path(pi, "extra_decls.go")] = b.String()
 	}
-	out["zz_drive.go"] = r.renderDriver(home)
+	if !s.NoTrace {
+		out["zz_drive.go"] = r.renderDriver(home)
+	}
 	return out
 }
 
@@ -619,6 +624,17 @@ func (r *Renderer) renderProvider(f *gofile, ii int) {
 			f.p("\treturn %s\n", strings.Join(zs, ", "))
 		}
 		f.p("}\n\n")
+		return
+	}
+	if r.S.NoTrace {
+		f.p("\tvar zzR %s = %s\n\treturn zzR", f.ty(out), f.mk(out, strconv.Itoa(100+ii), true, 0))
+		if hasCl {
+			f.p(", func() {}")
+		}
+		if hasErr {
+			f.p(", nil")
+		}
+		f.p("\n}\n\n")
 		return
 	}
 	tr := f.use(pkgTrace)
